@@ -17,7 +17,7 @@ ID = "C11"
 LEVEL = "exploration"
 RULE = ("a case is (scheme, valid configuration, small valid database, sequence of client operations drawn from {create with an "
         "invalid configuration (unknown primitive / missing field / bad key length / unknown scheme), create again on the existing "
-        "sid, generate key, encrypt database, upload configuration, upload index, search}); every operation is run with a client "
+        "sid, create-service with the service's own stored configuration (same salt), generate key, encrypt database, upload configuration, upload index, search}); every operation is run with a client "
         "Service freshly loaded from disk and closed afterwards, as the CLI does, against a live in-process server. Oracle = "
         "5-flag reference model (created, config uploaded, key created, db encrypted, db uploaded) with the documented "
         "prerequisite relation: accepted/refused must agree; the persisted service_meta flags equal the model after every step; "
@@ -145,6 +145,7 @@ class Run:
             return
         expect_ok = {
             "create_again": False,
+            "create_same_salt": False,
             "genkey": bool(f & CC) and not f & KC,
             "encrypt": bool(f & CC) and bool(f & KC) and not f & DE,
             "upload_config": bool(f & CC) and not f & CU,
@@ -159,6 +160,17 @@ class Run:
             try:
                 if kind == "create_again":
                     svc.handle_create_config(copy.deepcopy(self.case["cfg_final"]))
+                elif kind == "create_same_salt":
+                    # create-service with the service's own stored configuration (same salt, hence the same sid): it would
+                    # redo the completed create step of that service
+                    import json
+                    with open(os.path.join(self.ns.client_dir, self.sid, "config.json")) as fh:
+                        stored = json.load(fh)
+                    new_sid = self.Service().handle_create_config(stored)
+                    if new_sid != self.sid:
+                        # the stored configuration hashed to another service id (pickle memoisation makes the id depend on
+                        # object identity of repeated strings): a NEW service was created, nothing of this one was redone
+                        raise RuntimeError("a different service was created; this service was not touched")
                 elif kind == "genkey":
                     svc.handle_create_key()
                 elif kind == "encrypt":
@@ -257,7 +269,7 @@ def st_case(draw, schemes, max_ops):
         cfg["param_dictionary_size"] = 16
     spec = draw(S.st_db_spec(desc, cfg, max_total=20, max_kw=3))
     op = st.one_of(
-        st.sampled_from([["genkey"], ["encrypt"], ["upload_config"], ["upload_edb"], ["create_again"]]),
+        st.sampled_from([["genkey"], ["encrypt"], ["upload_config"], ["upload_edb"], ["create_again"], ["create_same_salt"]]),
         st.tuples(st.just("search"), st.integers(0, 5)).map(list),
         st.tuples(st.just("create_invalid"), st.sampled_from(INVALID_KINDS)).map(list))
     pre = draw(st.lists(st.tuples(st.just("create_invalid"), st.sampled_from(INVALID_KINDS)).map(list), max_size=2))
@@ -330,7 +342,16 @@ def run_shard(spec, seed, tier):
                     c["cfg"]["param_s"] = 64
                     c["cfg"]["param_dictionary_size"] = 16
                 cases.append(c)
-        res.extra["invalid_sweep"] = "every invalid-configuration kind x every scheme (complete)"
+            for seq in ([["create"], ["create_same_salt"], ["genkey"]],
+                        [["create"], ["genkey"], ["create_same_salt"], ["genkey"], ["encrypt"], ["upload_config"], ["upload_edb"],
+                         ["create_same_salt"], ["genkey"], ["search", 0]]):
+                c = exhaustive_case(scheme, ())
+                c["ops"] = seq
+                if scheme == "CGKO06.SSE1":
+                    c["cfg"]["param_s"] = 64
+                    c["cfg"]["param_dictionary_size"] = 16
+                cases.append(c)
+        res.extra["invalid_sweep"] = "every invalid-configuration kind x every scheme, and create-with-the-stored-config sequences (complete)"
     res.extra["enumerated_sequences"] = len(cases)
     for case in cases:
         try:
